@@ -29,6 +29,7 @@ def _fact(outcome, key, default=None):
 PREDICATES = {
     "always": lambda case, out: True,
     "scale_factor_below_one": lambda case, out: _fact(out, "scale_factor", 1) < 1,
+    "smaller_scale_worse": lambda case, out: bool(_fact(out, "smaller_scale_worse")),
     "retraversal_needed_at_width": lambda case, out: bool(_fact(out, "needs_retraversal")),
     "cyclic_with_starts_or_ends": lambda case, out: bool(_fact(out, "cyclic")) and bool(_fact(out, "has_starts_ends")),
     "error_scaling_present": lambda case, out: bool(_fact(out, "has_scaling")),
